@@ -212,6 +212,8 @@ func runC09(c *Check) {
 	ruleRetrieveHelper(c, p, "C09-R3")
 	ruleNilGuard(c, p)
 	ruleHandOffNotUnderDeadline(c, p, "C09-R9")
+	ruleMetricsPreBound(c, p, "C09-R10", []*ssa.Function{p.MustFunc(mgrM("RetrieveLoop"))}, 6)
+	c.MinInstances("C09-R10", 1)
 	c.Doc("C09-R6", "EO: the hand-off of an admitted item to sync cannot be skipped: blocking send, or select with cancellation as the only alternative.")
 	ruleHandOffNotDroppable(c, p)
 	ruleDropDecisionsArePure(c, p)
